@@ -434,6 +434,7 @@ def run_instance(module, inst, tier, seed, concrete=None, refine=None):
         concrete = ConcreteServer()
         own_conc = True
     cand_seen = {}
+    cand_unreal = {}
 
     def fn():
         I = SymInputs(Ctx.cur, params)
@@ -447,8 +448,9 @@ def run_instance(module, inst, tier, seed, concrete=None, refine=None):
     def candidate(ctx, kind, sig, model, pr):
         """A counterexample candidate: make it replayable, replay on the real code, record."""
         key = (kind, sig)
-        cand_seen[key] = cand_seen.get(key, 0) + 1
-        if cand_seen[key] > 3 or len(res["candidates"]) >= 24:
+        # at most 3 concrete replays per signature; failing paths whose model cannot be refined to the real environment
+        # (e.g. the abstract width function gave an unreal class to a character) do not use up that allowance, up to 12 tries
+        if cand_seen.get(key, 0) >= 3 or cand_unreal.get(key, 0) >= 12 or len(res["candidates"]) >= 24:
             res["more_failing_paths"] = res.get("more_failing_paths", 0) + 1
             return
         alts = uw.refine_for_replay(ctx) or [[]]
@@ -473,7 +475,9 @@ def run_instance(module, inst, tier, seed, concrete=None, refine=None):
                 except Exception:  # noqa: BLE001
                     av, af = {}, {}
                 res["unrealised"].append("%s %s: %s under the real-environment constraints; abstract model %s %s" % (kind, sig, r, json.dumps(av)[:300], json.dumps(af)[:300]))
+                cand_unreal[key] = cand_unreal.get(key, 0) + 1
                 return
+        cand_seen[key] = cand_seen.get(key, 0) + 1
         vals, funcs = model_to_inputs(ctx, m2)
         out = concrete.call(conc_req(vals, funcs, True))
         if out["kind"] in ("unrealised", "timeout"):
